@@ -254,6 +254,23 @@ def probe_points(inp) -> ProbeResult:
             a = g.nodes[n]
             if float(a.get("time", -1)) != t or not refs.close(list(a.get("pos", [])), [float(x) for x in p]):
                 res.fail("node_attrs", f"point {n}: time/pos {a.get('time')}/{a.get('pos')} != {t}/{[float(x) for x in p]}")
+    if not res.failures and pts:
+        # a sweep re-uses the caller's array: a second graph from the same array object is
+        # judged against the same point list
+        res2 = ProbeResult()
+        try:
+            g2 = compute_graph_from_points_list(arr, r, scale=None if scale is None else list(scale))
+            _compare(res2, g2, nodes, r, exact, "points")
+            if not res2.failures:
+                for n, (t, p) in nodes.items():
+                    a = g2.nodes[n]
+                    if float(a.get("time", -1)) != t or not refs.close(list(a.get("pos", [])), [float(x) for x in p]):
+                        res2.fail("node_attrs", f"point {n}: time/pos {a.get('time')}/{a.get('pos')} != {t}/{[float(x) for x in p]}")
+        except Exception as e:  # noqa: BLE001
+            res2.fail(f"exception:{type(e).__name__}", f"raised {e!r}")
+        for b, m in res2.failures.items():
+            res.fail("second_call_same_array:" + b, "second graph from the same array object: " + m)
+        res.evaluations += 1
     nt = (max([t for t, _ in nodes.values()]) + 1) if nodes else 0
     _classify(res, {t for t, _ in nodes.values()}, nt, tie, inp, nsp, bool(nodes))
     return res
